@@ -420,7 +420,10 @@ class Parser:
     def getJunk(self, ctx, offset, *expressions):
         junkend = None
         for exp in expressions:
-            m = exp.search(ctx.contents, offset)
+            # Junk is at least one character long. Searching from offset
+            # itself can yield empty junk over and over again if an
+            # entity match at offset was rejected (BadEntity).
+            m = exp.search(ctx.contents, offset + 1)
             if m:
                 junkend = min(junkend, m.start()) if junkend else m.start()
         return Junk(ctx, (offset, junkend or len(ctx.contents)))
